@@ -79,7 +79,8 @@ def run_tlc(
     violation."""
     meta = _workdir(module)
     # SerialGC without -Xms: page faults are expensive in this sandbox (measured 4.7 s vs 11-23 s)
-    cmd = ["java", "-XX:+UseSerialGC", "-Xmx8g", "-Xss256m"]   # deep recursive folds over long traces
+    # deep recursive folds over long traces; SANY's scratch directories go to the run's own directory, not /tmp
+    cmd = ["java", "-XX:+UseSerialGC", "-Xmx8g", "-Xss256m", "-Djava.io.tmpdir=" + meta]
     cmd += list(java_opts)
     cmd += ["-cp", JAR, "tlc2.TLC", "-metadir", meta, "-noGenerateSpecTE"]
     cmd += ["-workers", str(workers)]
